@@ -42,7 +42,8 @@ ASSUMPTIONS = [
 
 PERIODS = ('days', 'hours', 'minutes', 'seconds')
 EPOCHS = [
-    (1990, 1, 1, 0, 0, 0), (2000, 2, 29, 12, 30, 45), (1999, 12, 31, 23, 59, 59), (1970, 1, 1, 0, 0, 0),
+    (1990, 1, 1, 0, 0, 0), (2000, 2, 29, 12, 30, 45), (900, 6, 15, 1, 2, 3), (1970, 1, 1, 0, 0, 0), (1999, 12, 31, 23, 59, 59),
+    (1, 6, 15, 0, 0, 0),
     (2024, 12, 31, 18, 0, 0), (2001, 1, 1, 0, 0, 1), (1980, 6, 15, 6, 7, 8), (2020, 2, 29, 23, 0, 0),
 ]
 OUTPUT_RE = re.compile(r'^(seconds|minutes|hours|days) since (\d{4})-(\d{2})-(\d{2}) (\d{2}):(\d{2}):(\d{2}) ([+-])(\d{1,2}):(\d{2})$')
